@@ -615,6 +615,13 @@ def skeletons():
     add("star-except-replace", sel([star(T("t"), ex="a"), star(T("u"), ex="d")], [t, u]))
     add("star-except-replace", sel([star(AT("sa"), ex="b")], [tab("t", "sa")]))
     add("star-except-unknown", sel([star(ex="e")], [t]))  # EXCEPT names a column the table does not have
+    # two stars over the same source, only the first one with modifiers: the second expands to the whole table
+    add("star-except-twice", sel([star(T("t"), ex="a"), star(T("t"))], [t]))
+    add("star-except-twice", sel([star(T("t"), rep="b"), star(T("t"))], [t]))
+    add("star-except-twice", sel([star(AT("sa"), ex="ab"), star(AT("sa")), pe(col("c"), "xc")], [tab("t", "sa")]))
+    add("star-except-twice", sel([star(ex="a"), star(T("u"))], [t, u]))
+    add("star-except-twice", sel([star(T("u"), ex="d"), STAR], [t, u]))
+    add("star-except-twice", sel([star(T("t"), ex="a"), star(T("u"), ex="b"), star(T("t")), star(T("u"))], [t, u]))
 
     # --- JOIN ... ON
     cond_uv = op("=", col("d", T("u")), col("d", T("v")))
@@ -652,6 +659,12 @@ def skeletons():
     add("using-col", sel([pe(col("b")), pe(col("d", AT("sb")))], fa))
     add("using-col", sel([pe(col("b"), "xa")], fa, o=[col("b")]))
     add("using-unknown-column", sel([STAR], [t, using(v, "b")]))  # tv has no cb
+    # the USING column exists in the joined table only: no source on the left can supply it
+    add("using-left-lacks-column", sel([STAR], [t, using(u, "d")]))  # tt has no cd
+    add("using-left-lacks-column", sel([pe(col("c", T("u")))], [t, using(u, "d")]))
+    add("using-left-lacks-column", sel([star(T("u"))], [t, using(u, "d")]))
+    add("using-left-lacks-column", sel([pe(col("a", T("t")))], [t, using(u, "b"), using(v, "e")]))  # neither tt nor tu has ce
+    add("using-left-lacks-column", sel([pe(col("a", T("t"))), pe(col("e", T("v")))], [t, using(u, "bd"), using(v, "a")]))
 
     # --- references to output aliases
     def base(extra=False, **kw):
